@@ -1,6 +1,9 @@
 // C15 harness: scripted workloads against the real FailableMemoryAllocator (installed as current malloc / new / new[]
 // allocator only around each request) and against the C-level out-of-memory simulation of TestHarness_c.cpp.
 // Scenario grammar: checks/C15.py.  One observation item per allocation / check / reset.
+// :T scenarios: the operations of an :F scenario carried out from setup / body / teardown of ONE test run by a
+// TestTestingFixture, mixed with other failures of that test (addFailure, FAIL, a plugin's); every check is observed with the
+// failure count of the test before and after it.
 // :R scenarios: blocks are kept in slots and released / reallocated / copied from while failures are injected; a private
 // MemoryLeakDetector with a recording, non-exiting failure reporter is the global one meanwhile, the PlatformSpecific
 // malloc / realloc / free seams record what the real allocator hands out and gets back.
@@ -328,6 +331,114 @@ static void relScenario(Toks& t, Out& o)
     o << std::string(out);
 }
 
+// ------------------------------------------------------------------------------------------------ :T scenarios
+struct TEv { char k; long long n; int fam; std::string file; size_t line; };
+static std::vector<TEv> tPhase[3];
+static size_t tStarted[3];
+static std::string tItems[3];
+static TestTestingFixture* tFx = NULL;
+static struct { bool on; int phase; size_t before; size_t outLen; } tAsk;   // a check that has been asked and has not come back yet
+
+static std::string reportItem(const std::string& out)
+{
+    const char* g = "Expected allocation number ";
+    const char* l = "Expected failing alloc at ";
+    const char* tail = " was never done";
+    size_t e = out.find(tail);
+    size_t p = out.find(g);
+    if (p != std::string::npos && e != std::string::npos && e > p)
+        return ":G " + hz(atoll(out.substr(p + strlen(g), e - p - strlen(g)).c_str()));
+    p = out.find(l);
+    if (p != std::string::npos && e != std::string::npos && e > p) {
+        std::string fl = out.substr(p + strlen(l), e - p - strlen(l));
+        size_t c = fl.rfind(':');
+        if (c != std::string::npos) return ":L " + hbytes(fl.data(), c) + " " + hz(atoll(fl.c_str() + c + 1));
+    }
+    return ":X";
+}
+// the check came back (or the test function it was asked from has been left): what happened to the test meanwhile
+static void settleAsk()
+{
+    if (!tAsk.on) return;
+    tAsk.on = false;
+    size_t after = tFx->getFailureCount();
+    std::string all = tFx->getOutput().asCharString();
+    std::string delta = all.size() >= tAsk.outLen ? all.substr(tAsk.outLen) : std::string();
+    std::string rep = after == tAsk.before && delta.find(" was never done") == std::string::npos ? std::string(":n") : reportItem(delta);
+    tItems[tAsk.phase] += ":K " + hz((long long) tAsk.before) + " " + hz((long long) after) + " " + rep + " ";
+}
+static void runTestFunction(int ph)
+{
+    settleAsk();
+    for (size_t i = 0; i < tPhase[ph].size(); i++) {
+        const TEv& e = tPhase[ph][i];
+        tStarted[ph] = i + 1;
+        switch (e.k) {
+        case 'g': fa->failAllocNumber((int) e.n); break;
+        case 'l': fa->failNthAllocAt((int) e.n, e.file.c_str(), e.line); break;
+        case 'a': tItems[ph] += hx((unsigned) request(e.fam, e.file.c_str(), e.line)) + " "; break;
+        case 'c': fa->clearFailedAllocs(); break;
+        case 'k':
+            tAsk.on = true; tAsk.phase = ph; tAsk.before = tFx->getFailureCount(); tAsk.outLen = strlen(tFx->getOutput().asCharString());
+            fa->checkAllFailedAllocsWereDone();
+            settleAsk();
+            break;
+        case '+': {
+            UtestShell* cur = UtestShell::getCurrent();
+            cur->addFailure(FailFailure(cur, "other.cpp", 11, "a failure recorded while the test goes on"));
+            break; }
+        case '!': FAIL("an unrelated failed check"); break;
+        }
+    }
+}
+static void tSetup() { runTestFunction(0); }
+static void tBody() { runTestFunction(1); }
+static void tTeardown() { runTestFunction(2); }
+
+class EarlierFailuresPlugin : public TestPlugin
+{
+public:
+    int count;
+    EarlierFailuresPlugin() : TestPlugin("EarlierFailuresPlugin"), count(0) {}
+    void preTestAction(UtestShell& test, TestResult& result) CPPUTEST_OVERRIDE
+    {
+        for (int i = 0; i < count; i++) result.addFailure(FailFailure(&test, "plugin.cpp", 7, "reported by a plugin before the test"));
+    }
+};
+
+static void testScenario(Toks& t, Out& o)
+{
+    long long pre = t.z();
+    int ph = 0;
+    for (int i = 0; i < 3; i++) { tPhase[i].clear(); tStarted[i] = 0; tItems[i].clear(); }
+    while (!t.end()) {
+        std::string k = t.next();
+        if (k == ":|") { if (++ph > 2) { fprintf(stderr, "more than three test functions\n"); exit(3); } continue; }
+        TEv e; e.k = k.size() > 1 ? k[1] : 0; e.n = 0; e.fam = 0; e.line = 0;
+        if (k == ":g") e.n = t.z();
+        else if (k == ":l") { e.n = t.z(); t.bytes(e.file); e.line = (size_t) t.u(); }
+        else if (k == ":a") { e.fam = t.n(); t.bytes(e.file); e.line = (size_t) t.u(); }
+        else if (k == ":k" || k == ":c" || k == ":+" || k == ":!") {}
+        else { fprintf(stderr, "bad tev %s\n", k.c_str()); exit(3); }
+        tPhase[ph].push_back(e);
+    }
+    fa = new FailableMemoryAllocator("Failable Allocator", "alloc", "free");
+    {
+        TestTestingFixture fx;
+        EarlierFailuresPlugin plugin;
+        plugin.count = (int) pre;
+        fx.installPlugin(&plugin);
+        fx.setSetup(tSetup); fx.setTestFunction(tBody); fx.setTeardown(tTeardown);
+        tFx = &fx; tAsk.on = false;
+        fx.runAllTests();
+        settleAsk();
+        tFx = NULL;
+    }
+    fa->clearFailedAllocs();
+    delete fa; fa = nullptr;
+    for (int i = 0; i < 3; i++) o << (tItems[i] + ":p " + hx((unsigned) tStarted[i]));
+}
+
 int main()
 {
     setvbuf(stdout, NULL, _IONBF, 0);
@@ -345,6 +456,7 @@ int main()
         if (kind == ":F") failScenario(t, o);
         else if (kind == ":C") countScenario(t, o);
         else if (kind == ":R") relScenario(t, o);
+        else if (kind == ":T") testScenario(t, o);
         else { fprintf(stderr, "bad scenario kind %s\n", kind.c_str()); exit(3); }
         o.flush();
     }
